@@ -79,7 +79,7 @@ class StatusObserver:
 
 def h_submit(shapes=("chain3",), bss=(1, 2), maxns=(None, 1), tas=(True,), time_based=False, G=1, fails=True,
              cancel_flags=True, lost=False, local=False, procs=None, max_steps=60, max_recoveries=None, rcs=(0, 1),
-             hooks=False, est_choices=(1, 5), wall="0:10:00", dry_run=False, hook_rcs=(0,), aliases=None, round_yields=False, user_round=False, double_recovery=False, cpus=4):
+             hooks=False, est_choices=(1, 5), wall="0:10:00", dry_run=False, hook_rcs=(0,), aliases=None, round_yields=False, user_round=False, double_recovery=False, cpus=4, append_flags=False):
     def harness(ex):
         from world.world import Hang
 
@@ -120,6 +120,10 @@ def h_submit(shapes=("chain3",), bss=(1, 2), maxns=(None, 1), tas=(True,), time_
                      cancel_on_blocking_job_failure=flags[i], submission_group="g%d" % grp_of[i])
             if ests[i] is not None:
                 j["estimated_run_minutes"] = ests[i]
+            if append_flags:
+                j["append_job_name"] = ex.flag("append_job_name%d" % i)
+                j["append_output_dir"] = ex.flag("append_output_dir%d" % i)
+                j["command"] = "job %s --opt 'a b'" % nm[i]
             jobs.append(j)
         cfg_kw = {}
         hook_set = {}
@@ -316,6 +320,21 @@ def h_submit(shapes=("chain3",), bss=(1, 2), maxns=(None, 1), tas=(True,), time_
             for b in blockers.get(i, []):
                 ex.check(nm[b] in l["results_on_disk"], "C02: job started before its blocker had a recorded outcome",
                          job=l["job"], blocker=nm[b])
+        # C19: launched as configured, through the whole chain (config file -> batch config -> JobRunner -> AsyncCliCommand)
+        from oracles import ref_split
+
+        for l in launches:
+            jd = jobs[nm.index(l["job"])]
+            want_argv = ref_split(jd["command"]) + (["--jade-job-name=" + l["job"]] if jd.get("append_job_name") else []) \
+                + (["--jade-runtime-output=" + out] if jd.get("append_output_dir") else [])
+            ex.check(l["argv"] == want_argv, "C19: job not executed as configured (command split with POSIX rules plus documented arguments)",
+                     job=l["job"], argv=l["argv"], want=want_argv)
+        for jrec in w.jobs:
+            ex.check(jrec["env"].get("JADE_JOB_NAME") == jrec["name"] and jrec["env"].get("JADE_RUNTIME_OUTPUT") == out,
+                     "C19: JADE_JOB_NAME / JADE_RUNTIME_OUTPUT not set for a job", job=jrec["name"], env=jrec["env"])
+            ex.check(jrec["stdout"] == os.path.join(out, "job-stdio", jrec["name"] + ".o")
+                     and jrec["stderr"] == os.path.join(out, "job-stdio", jrec["name"] + ".e"),
+                     "C19: job does not get its own stdout/stderr files", job=jrec["name"], stdout=jrec["stdout"])
         # C06
         if maxn is not None:
             for s in sb:
@@ -453,6 +472,13 @@ def h_submit(shapes=("chain3",), bss=(1, 2), maxns=(None, 1), tas=(True,), time_
                 else:
                     ex.check(per_job.get(n, 0) == 1, "C01/C04: job that is not canceled did not run exactly once", job=n,
                              launches=per_job.get(n, 0))
+                    r_ = summ.get_result(n)
+                    lb = [l["batch"] for l in launches if l["job"] == n]
+                    if r_ is not None and lb:
+                        ex.check(r_.return_code == rc_mem.get(n, 0), "C19: recorded exit code differs from the job's real exit code", job=n,
+                                 recorded=r_.return_code, real=rc_mem.get(n, 0))
+                        ex.check(local or str(r_.hpc_job_id) == str(lb[0]), "C19: recorded HPC job id is not the id of the node that ran the job",
+                                 job=n, recorded=r_.hpc_job_id, node=lb[0])
                     ex.check(n in placed or local, "C01: job that ran was in no batch", job=n)
             sm = data["results_summary"]
             ex.check(sm["num_successful"] == sum(1 for v in want.values() if v == "successful")
